@@ -66,3 +66,32 @@ def _from_bytes(eng, st, args, kwargs):
     if order != 'big' or kwargs.get('signed', False) is not False:
         raise Outside("int.from_bytes variant")
     yield st, eng.bytes_to_int(eng.term(b, BYTES, st), st)
+
+
+def _register_immutables():
+    import immutables
+    from pyvc.engine import EMPTY_MAP
+    from pyvc.types import MAP, to_sort, opt_sort
+
+    def _Map(eng, st, args, kwargs):
+        if not args:
+            yield st, EMPTY_MAP
+            return
+        a = args[0]
+        if isinstance(a, tuple) and a and a[0] == 'pydict':
+            items = a[1]
+            k0, v0 = items[0]
+            kl, vl = eng.lift(k0, st), eng.lift(v0, st)
+            ty = MAP(kl.ty, vl.ty)
+            o = opt_sort(to_sort(vl.ty, eng.reg))
+            t = z3.K(to_sort(kl.ty, eng.reg), o.none)
+            for k, v in items:
+                t = z3.Store(t, eng.key_term(k, kl.ty, st), o.some(eng.term(v, vl.ty, st)))
+            eng.assumptions_used.add('A-IMMUT')
+            yield st, V(t, ty)
+            return
+        raise Outside("immutables.Map(%r)" % (a,))
+    EX.externals[immutables.Map] = _Map
+
+
+_register_immutables()
